@@ -55,6 +55,19 @@ def main():
     handles = {}
     for line in open(sys.argv[2]):
         c = json.loads(line)
+        if c.get("mode") == "sql":
+            try:
+                b = pybigtools.open(c["path"])
+                txt = b.sql()
+                # parse=True describes ONE table: only asked for single-declaration schemas
+                nf = len(b.sql(parse=True)["fields"]) if len(c["counts"]) == 1 else c["hfc"]
+                c["obs"] = {"result": "ok", "same": 1 if txt == c["schema"] else 0, "nfields": nf}
+            except BaseException as ex:
+                c["obs"] = {"result": "exception", "same": 0, "nfields": -1, "err": "%s: %s" % (type(ex).__name__, str(ex)[:200])}
+            c.pop("schema", None)
+            out.write(json.dumps(c) + "\n")
+            out.flush()
+            continue
         if c.get("mode") == "aob":
             try:
                 c["obs"] = aob(c)
